@@ -37,6 +37,8 @@ Shared-state analysis (syntactic; aliases through parameters / return values are
 monitor and the differential whole runs of harness/props/c12.py are the back-stop)
   shared object   a name bound at module level or in a class body whose value is not an obviously
                   immutable literal; also list/dict/set literals used as default arguments
+                  (dataclasses.field(...) defaults are per instance; `self.X` is not taken for the class-level X
+                  when some method of the class assigns an instance attribute `self.X = <fresh value>`)
   how it is reached in a function: the bare module-level name; `Class.ATTR` / `Outer.Inner.ATTR`;
                   `self.ATTR` / `cls.ATTR` for class-level ATTR; an imported name/alias/module attribute chain
                   that resolves to one of these in another src module; a local variable or `self.X`
@@ -141,6 +143,10 @@ def immutable_literal(node):
         return immutable_literal(node.left) and immutable_literal(node.right)
     if isinstance(node, ast.Lambda):
         return True
+    if isinstance(node, ast.Call):
+        c = chain(node.func)
+        if c and c[-1] == "field":   # dataclasses.field(...): the default is created per instance
+            return True
     return False
 
 
@@ -418,6 +424,9 @@ class FuncScan(ast.NodeVisitor):
         is_self = parts[0] in ("self", "cls") and self.cur_class is not None
         if parts[0] in self.shadow and not is_self and ".".join(parts) not in self.local and parts[0] not in self.local:
             return None
+        if (parts[0] == "self" and is_self and len(parts) >= 2 and ".".join(parts[:2]) not in self.local
+                and parts[1] in self.ex.instance_attrs.get((self.m.name, self.cur_class), ())):
+            return None   # an instance attribute of that name is assigned somewhere in the class
         sh = resolve_chain(self.ex.mods, self.m, parts, self.local, self.cur_class)
         if sh is not None and immutable_literal(sh.value):
             return None   # str/int/tuple constants cannot be mutated in place
@@ -512,8 +521,9 @@ class FuncScan(ast.NodeVisitor):
                     self.local[key] = v
                     self.ex.class_alias.setdefault((self.m.name, self.cur_class), {})[key] = v
                     return
-                # instance attribute hides a class-level one from here on; nothing shared is written
+                # instance attribute hides a class-level one; nothing shared is written
                 self.local.pop(key, None)
+                self.ex.instance_attrs.setdefault((self.m.name, self.cur_class), set()).add(parts[1])
                 return
             if parts[0] == "self":
                 return
@@ -609,6 +619,7 @@ class Extractor:
         self.reach = reachable(self.mods, ENTRY)
         self.rng, self.seeds, self.mutations, self.seed_points = [], [], [], []
         self.class_alias = {}
+        self.instance_attrs = {}
 
     # -- functions -------------------------------------------------------------------------------
     def scan_function(self, m, node, qual, cur_class, class_alias):
